@@ -106,6 +106,13 @@ def run_history(case):
     try:
         tree = case["tree"]
         root = alpha.materialize(tree, os.path.join(sbx, "p"))
+        if case.get("file_meta"):        # executable / read-only / private permission bits on the payload files
+            k = 0
+            for dp, dns, fns in os.walk(root):
+                for fn in sorted(fns):
+                    if not os.path.islink(os.path.join(dp, fn)):
+                        k += 1
+                        os.chmod(os.path.join(dp, fn), (0o755, 0o600, 0o444, 0o775, 0o711)[k % 5])
         from .core import odd_meta
         mdir, mname = odd_meta(case)
         os.makedirs(os.path.join(sbx, mdir))
